@@ -84,7 +84,8 @@ def prune_cache(keep):
         return
     ds.sort(key=lambda d: os.path.getmtime(d), reverse=True)
     for d in ds[keep:]:
-        shutil.rmtree(d, ignore_errors=True)
+        if time.time() - os.path.getmtime(d) > 2 * 3600:    # never remove a tree another check may still be using
+            shutil.rmtree(d, ignore_errors=True)
 
 
 def build_lib(variant, th=None):
@@ -545,7 +546,7 @@ def judge(pid, cfg, tier, seed, scale, results, t0, workdir, is_replay):
                violation_keys_new=[k for k, _, _ in new_keys], known_findings_seen=[key for _, key, _ in known_hit])
     ev = dict(property_id=pid, tier=tier, seed=seed, level=cfg['level'], coverage=cov,
               assumptions=cfg.get('assumptions', []), wall_s=round(wall, 2), violations=len(new_keys))
-    if not is_replay and scale == 100:
+    if not is_replay and scale == 100 and os.path.realpath(REPO) == '/repo':
         os.makedirs(os.path.join(VERIF, 'evidence'), exist_ok=True)
         tmp = os.path.join(VERIF, 'evidence', pid + '.json.tmp')
         with open(tmp, 'w') as f:
